@@ -10,6 +10,6 @@ def plan(tier):
     j += fvm.config('C20', 'msig_1w1r', 'msig.c', 2, 4, 'sc', srcs=src, defines=['NW=1', 'NR=1'], spec=fvm.kspec(2), bounds='multi-signal: 1 waiter, 1 raiser (contract kernel)', timeout=900)
     if tier == 'thorough':
         j += fvm.config('C20', 'msig_2w1r', 'msig.c', 3, 4, 'sc', srcs=src, defines=['NW=2', 'NR=1'], spec=fvm.kspec(3), bounds='multi-signal: 2 waiters, 1 raiser', timeout=1800, required=False)
-        j += fvm.config('C20', 'msig_2w2r', 'msig.c', 4, 4, 'sc', srcs=src, defines=['NW=2', 'NR=2'], spec=fvm.kspec(4), bounds='multi-signal: 2 waiters, 2 raisers', timeout=3600, required=False, mem_gb=24)
+        j += fvm.config('C20', 'msig_2w2r', 'msig.c', 4, 5, 'sc', srcs=src, defines=['NW=2', 'NR=2'], spec=fvm.kspec(4), bounds='multi-signal: 2 waiters, 2 raisers', timeout=3600, required=False, mem_gb=24)
         j += fvm.config('C20', 'msig_1w2r', 'msig.c', 3, 4, 'sc', srcs=src, defines=['NW=1', 'NR=2'], spec=fvm.kspec(3), bounds='multi-signal: 1 waiter, 2 raisers', timeout=3600, required=False, mem_gb=24)
     return j
